@@ -398,3 +398,22 @@ PROPS["C17"] = {
          "thorough": {"checks": 800, "shards": 16, "timeout": 1700}},
     ],
 }
+
+
+PROPS["C20"] = {
+    "title": "Contract queries and view functions cannot change state",
+    "variant": "c20",
+    "level": "exploration",
+    "technique": "PBT (rapid) over generated host-callback sequences on the transliterated Go half of the VM (built from the current working tree): read-only context vs writable twin (metamorphic), observable-state invariance oracle",
+    "level_text": ("The LuaJIT VM, its C modules and SQLite cannot be built in this environment, so contract programs cannot be executed. What is executed is the Go half of the mechanism named by the property: at check time the current vm_callback.go, vm.go, vm_state.go, internal_operations.go, lstate_factory.go and hook.go are transliterated with go/ast (cgo symbols C.x -> pure-Go stand-ins c_x; six functions that dereference C structs dropped) and compiled into package contract. "
+                   "Generated sequences of 1-8 mutating host callbacks (luaSetDB, luaDelDB, luaSendAmount, luaEvent, luaSetRecoveryPoint, luaGovernance stake/unstake/vote, luaDeployContract) run on a real vmContext over a real BlockState in a client-query context, a fee-delegation-check context and inside 1-3 nested view wrappers entered/partly left through the real luaViewStart/luaViewEnd, for fork versions 0-5: every call must refuse, "
+                   "and contract storage, all account states of the call state, events, recovery points, update size and the state root must be unchanged; the same sequence in a writable twin must change state (else the case counts as trivial)."),
+    "level_note": "Out of reach and NOT claimed: the C side (db_module.c SQL write path, vm.c view wrapper, the Lua->host binding), luaCallContract / luaDelegateCallContract beyond their argument checks (they need a Lua state before the guard is reached), and real contract programs. A guard removed there is not detected. If a future change of the transliterated files uses cgo in a way the transliteration cannot handle, the check ends as an infrastructure error (exit 2), never as a violation.",
+    "rule": ("a case = (context kind, view nesting, fork version, callback sequence); non-trivial = the writable twin changed at least two different kinds of state; distinct = distinct case description."),
+    "assumptions": ["the pure-Go stand-ins for cgo symbols (c20/cshim.go) are behaviour-free", "the transliteration only renames C.x selectors and drops functions listed in tools/overlay.py"],
+    "units": [
+        {"pkg": "contract", "run": "^TestC20ReadOnlyGuards$",
+         "quick": {"checks": 1500, "shards": 6, "timeout": 400},
+         "thorough": {"checks": 30000, "shards": 12, "timeout": 1700}},
+    ],
+}
